@@ -57,7 +57,7 @@ fn main() {
             p @ ("C09" | "C11") => {
                 let kf = report::KnownFindings::load();
                 let mut run = report::Run::new(p, tier, "chessx");
-                chessx::run_jobs(&mut run, &kf, p, chessx::plan(p, tier), if tier == "quick" { 120 } else { 1800 }, p);
+                chessx::run_jobs(&mut run, &kf, p, chessx::plan(p, tier), if tier == "quick" { 120 } else { 1200 }, p);
                 if p == "C09" {
                     loom_supplement(&mut run, &kf, tier);
                 }
@@ -75,20 +75,20 @@ fn main() {
             "C05" => {
                 let kf = report::KnownFindings::load();
                 let mut run = report::Run::new("C05", tier, "crashx");
-                rawx_run::add_crash(&mut run, &kf, "C05", tier, if tier == "quick" { 150 } else { 1800 });
+                rawx_run::add_crash(&mut run, &kf, "C05", tier, if tier == "quick" { 150 } else { 1200 });
                 run.cov("rule", serde_json::json!("breadth-first over operation histories (as rawx); for every transition, every event boundary of the operation (mmap write, set_len, sync begin/end, punch) is a crash point; at each crash point the crash images of both environments are materialised, opened with the real Database::open and judged; states are distinct by implementation state + durable image + dirty page versions"));
                 run.finish()
             }
             p @ ("C01" | "C02" | "C10" | "C12") => {
                 let kf = report::KnownFindings::load();
                 let mut run = report::Run::new(p, tier, "rawx");
-                rawx_run::add(&mut run, &kf, p, tier, if tier == "quick" { 120 } else { 1000 });
+                rawx_run::add(&mut run, &kf, p, tier, if tier == "quick" { 120 } else { 800 });
                 if p == "C12" {
-                    rawx_run::add_crash(&mut run, &kf, "C12", tier, if tier == "quick" { 60 } else { 800 });
-                    chessx::run_jobs(&mut run, &kf, "C12", chessx::plan("C12", tier), if tier == "quick" { 45 } else { 600 }, "C12");
+                    rawx_run::add_crash(&mut run, &kf, "C12", tier, if tier == "quick" { 60 } else { 500 });
+                    chessx::run_jobs(&mut run, &kf, "C12", chessx::plan("C12", tier), if tier == "quick" { 45 } else { 500 }, "C12");
                 }
                 if p == "C10" {
-                    chessx::run_jobs(&mut run, &kf, "C10", chessx::plan("C10", tier), if tier == "quick" { 60 } else { 1200 }, "C10");
+                    chessx::run_jobs(&mut run, &kf, "C10", chessx::plan("C10", tier), if tier == "quick" { 60 } else { 900 }, "C10");
                 }
                 run.cov("rule", serde_json::json!(rawx_run::RULE));
                 run.finish()
@@ -96,7 +96,7 @@ fn main() {
             p @ ("C03" | "C04" | "C07" | "C16" | "C08" | "C20") => {
                 let kf = report::KnownFindings::load();
                 let mut run = report::Run::new(p, tier, "vecx");
-                vecx_run::add(&mut run, &kf, p, tier, if tier == "quick" { 150 } else { 1500 });
+                vecx_run::add(&mut run, &kf, p, tier, if tier == "quick" { 150 } else { 1000 });
                 if p == "C08" {
                     vecreads::bigscan(&mut run, &kf);
                 }
@@ -138,15 +138,15 @@ fn main() {
             "C06" => {
                 let kf = report::KnownFindings::load();
                 let mut run = report::Run::new("C06", tier, "eagerx");
-                eagerx::add(&mut run, &kf, tier, if tier == "quick" { 45 } else { 1500 });
+                eagerx::add(&mut run, &kf, tier, if tier == "quick" { 120 } else { 1200 });
                 run.cov("rule", serde_json::json!("per compute method: all source histories of the stated number of steps over {append 1, append 2, truncate+regrow 1, truncate+regrow 2, no change} x starting-index choices x batch limits x {nothing, write, re-import, redundant call} between calls; each case compares the incrementally maintained result with a from-scratch run after every step; distinct = distinct (method, result sequence)"));
                 run.finish()
             }
             "C13" => {
                 let kf = report::KnownFindings::load();
                 let mut run = report::Run::new("C13", tier, "rawx+vecx");
-                rawx_run::add(&mut run, &kf, "C13", tier, if tier == "quick" { 90 } else { 600 });
-                vecx_run::add(&mut run, &kf, "C13", tier, if tier == "quick" { 120 } else { 900 });
+                rawx_run::add(&mut run, &kf, "C13", tier, if tier == "quick" { 90 } else { 400 });
+                vecx_run::add(&mut run, &kf, "C13", tier, if tier == "quick" { 120 } else { 600 });
                 run.cov("rule", serde_json::json!(rawx_run::RULE));
                 run.finish()
             }
